@@ -57,3 +57,18 @@ def _multiindex(prop, case, f):
     if len(names) < 2:
         return False
     return f.get("kind") in ("program_raised", "cells", "process_crash", "index_levels", "row_count", "dtype", "index_names")
+
+
+@pred("untyped-partition-text-keys-coerced")
+def _drill_text(prop, case, f):
+    # without partition metadata (drill layout) directory text is type-guessed: "1", "True", "1.0" coerce to equal values and
+    # merge; once one key of a level is non-numeric text the level is parsed as text in paths_to_cats but still as numbers in
+    # read_row_group, so cats[...].index(val) raises "<val> is not in list"
+    if f.get("scheme") != "drill" or "pstr_num" not in (f.get("pkinds") or []):
+        return False
+    if f.get("kind") == "dataset_read_raised" and f.get("exc") == "ValueError" and f.get("where") == "core.py:read_row_group" \
+            and f.get("msg", "").endswith("is not in list"):
+        return True
+    if f.get("kind") == "drill_keys_merged" and f.get("pkind") == "pstr_num":
+        return True
+    return False
